@@ -129,7 +129,46 @@ class Units:
 
 class Dimensionality(dict):
     """what .dimensionality returns: compares equal when the unit expressions are identical"""
-    pass
+
+    def __eq__(self, other):
+        if isinstance(other, dict):
+            return dict.__eq__(self, other)
+        # a real `quantities` object: only pq.dimensionless (empty dimensionality) can be meant
+        d = getattr(other, "dimensionality", other)
+        try:
+            return len(self) == 0 and len(d) == 0
+        except TypeError:
+            return False
+
+    def __ne__(self, other):
+        return not self.__eq__(other)
+
+    __hash__ = None
+
+
+class NPCall:
+    """uninterpreted result of a numpy array routine (5.2: delegation shape only)"""
+    _pyvc_symbolic = True
+
+    def __init__(self, name, args, kwargs=None):
+        self.name, self.args, self.kwargs = name, args, kwargs or {}
+
+    def __mul__(self, o):
+        if isinstance(o, Quantity):
+            return NotImplemented
+        if isinstance(o, (int, float, Fr)) and o == 1:
+            return self
+        return NPCall("mul", (self, o))
+
+    __rmul__ = __mul__
+
+    def __iter__(self):
+        if self.name == "polyfit":      # deg + 1 coefficients, highest power first
+            return iter([NPCall("polyfit_coef", (self.args, i)) for i in range(int(self.args[2]) + 1)])
+        raise TypeError("'NPCall' object is not iterable")
+
+    def __repr__(self):
+        return "NP.%s%r" % (self.name, self.args)
 
 
 class Quantity:
@@ -151,6 +190,11 @@ class Quantity:
     def _coerce(self, other):
         if isinstance(other, Quantity):
             return other
+        if hasattr(other, "dimensionality") and hasattr(other, "magnitude") and not isinstance(other, Sym):
+            # an object of the real package (e.g. pq.dimensionless used as default target unit)
+            if len(other.dimensionality) != 0:
+                raise Unsupported("mixing the unit abstraction with a dimensional object of the real quantities package")
+            return Quantity(float(other.magnitude), {}, self.t)
         return Quantity(other, {}, self.t)
 
     def _convert_mag_to(self, units):
@@ -279,9 +323,25 @@ class Quantity:
     def item(self):
         return self.mag
 
+    # array-valued magnitudes (lists / object arrays of scalars)
+    def __getitem__(self, idx):
+        if isinstance(self.mag, (Sym, int, float, Fr)):
+            raise TypeError("'Quantity' scalar is not subscriptable")
+        return Quantity(self.mag[idx], self.u, self.t)
+
+    def __len__(self):
+        if isinstance(self.mag, (Sym, int, float, Fr)):
+            raise TypeError("len() of unsized object")
+        return len(self.mag)
+
+    def __iter__(self):
+        if isinstance(self.mag, (Sym, int, float, Fr)):
+            raise TypeError("'Quantity' scalar is not iterable")
+        return iter([Quantity(m, self.u, self.t) for m in self.mag])
+
     @property
     def ndim(self):
-        return 0
+        return getattr(self.mag, "ndim", 0) if not isinstance(self.mag, (list, tuple)) else 1
 
     def raw_float(self):
         """float(q): the magnitude, whatever the units"""
